@@ -216,7 +216,17 @@ func c13Inputs(r *rand.Rand, env *Env, idx, nIn int) []string {
 		if idx == 6 && i%2 == 0 { // the all-handlers policy: style-heavy inputs over all documented properties
 			var b strings.Builder
 			for k := 0; k < 1+r.Intn(5); k++ {
-				fmt.Fprintf(&b, "%s: %s %s; ", gen.CSSProperties[r.Intn(len(gen.CSSProperties))], pool[r.Intn(len(pool))], pool[r.Intn(len(pool))])
+				prop := gen.CSSProperties[r.Intn(len(gen.CSSProperties))]
+				if r.Intn(4) == 0 { // one or two vendor prefixes in front of the name
+					prop = gen.Pick(r, []string{"-webkit-", "-moz-", "-ms-", "-o-", "mso-", "-khtml-"}) + prop
+					if r.Intn(2) == 0 {
+						prop = gen.Pick(r, []string{"-webkit-", "-moz-", "-ms-", "-o-", "mso-", "-khtml-"}) + prop
+					}
+				}
+				fmt.Fprintf(&b, "%s: %s %s; ", prop, pool[r.Intn(len(pool))], pool[r.Intn(len(pool))])
+				if r.Intn(3) == 0 {
+					fmt.Fprintf(&b, "%s: %s; ", prop, gen.Pick(r, []string{"red", "1px", "none", "inherit", "left", "10%"}))
+				}
 			}
 			inputs[i] = `<span style="` + gen.CanonEscape(b.String()) + `">x</span><a href="http://example.org/?a=1" rel="x">y</a>`
 		}
@@ -242,7 +252,7 @@ func c13Inputs(r *rand.Rand, env *Env, idx, nIn int) []string {
 		if i%5 == 2 {
 			// the same attribute text on elements the policy treats differently (one element per input,
 			// and all of them in one input): a result must not depend on which was seen first
-			sty := gen.Pick(r, []string{"float: left", "color: red", "margin: abc; color: blue", "width: 10px", "color: blue; float: right", "COLOR: RED"})
+			sty := gen.Pick(r, []string{"-webkit--moz-color: red", "mso--ms-float: left; -moz--webkit-color: blue", "float: left", "color: red", "margin: abc; color: blue", "width: 10px", "color: blue; float: right", "COLOR: RED"})
 			val := gen.Pick(r, []string{"abc", "42", "#abc", "left", "x-a1"})
 			els := []string{"div", "span", "p", "my-x", "my-y", "x-foo", "b", "td", "a"}
 			if r.Intn(3) == 0 {
